@@ -597,7 +597,7 @@ fn check<P: Prop>(tier: Tier) -> i32 {
             "known_findings_matched": known_matched.iter().map(|(k, (w, n))| json!({"id": k, "what": w, "occurrences": n})).collect::<Vec<_>>(),
             "violating_runs": viols_total,
             "violation_groups": groups.len(),
-            "counters": counters,
+            "counters": counters.iter().filter(|(k, _)| !k.starts_with("bigram.")).collect::<BTreeMap<_, _>>(),
         },
         "assumptions": P::assumptions(),
         "wall_s": wall,
